@@ -11,14 +11,18 @@ EXTENDS SerdeTypes, Json
 
 VARIABLES hasdef, pos, cache, out, cnt, st, hist
 
-NF == 3
+CONSTANT NF      \* number of fields: 3 (every subset of defaults, skips, illegal histories) or 5 (orders only)
 (* the concrete record: a: int = 7 (default 42), b: string = "xy" (default "dflt"),
-   c: ["null","long"] = some(-2) (default null) *)
-FTypes == <<TS("i32"), TS("str"), TOpt(TS("i64"))>>
-FNames == <<"a", "b", "c">>
-FDefs  == <<"i42", "sdflt", "onull">>
-FVals  == <<[c |-> "i32", n |-> NatToLE8(7)], [c |-> "str", b |-> <<120, 121>>],
-            [c |-> "some", v |-> [c |-> "i64", n |-> NegNatToLE8(2)]]>>
+   c: ["null","long"] = some(-2) (default null), d: string = "a longer text" (default "dflt"), e: int = 7 (default 42);
+   with five fields several fields can wait in the cache at once WITHOUT being adjacent, and one of them can be
+   released while another keeps waiting *)
+FTypes == SubSeq(<<TS("i32"), TS("str"), TOpt(TS("i64")), TS("str"), TS("i32")>>, 1, NF)
+FNames == SubSeq(<<"a", "b", "c", "d", "e">>, 1, NF)
+FDefs  == SubSeq(<<"i42", "sdflt", "onull", "sdflt", "i42">>, 1, NF)
+FVals  == SubSeq(<<[c |-> "i32", n |-> NatToLE8(7)], [c |-> "str", b |-> <<120, 121>>],
+                   [c |-> "some", v |-> [c |-> "i64", n |-> NegNatToLE8(2)]],
+                   [c |-> "str", b |-> <<97, 32, 108, 111, 110, 103, 101, 114, 32, 116, 101, 120, 116>>],
+                   [c |-> "i32", n |-> NatToLE8(7)]>>, 1, NF)
 
 RecTy(hd) == TStruct("R3", [i \in 1..NF |-> IF hd[i] THEN FD(FNames[i], FTypes[i], FDefs[i]) ELSE F(FNames[i], FTypes[i])])
 R3S(hd) == SchemaOf(RecTy(hd))
@@ -26,9 +30,10 @@ R3S(hd) == SchemaOf(RecTy(hd))
 VB == [i \in 1..NF |-> Enc(ToAvro(FVals[i], SchemaOf(FTypes[i]), EmptyFun), SchemaOf(FTypes[i]), EmptyFun)]
 DB == [i \in 1..NF |-> Enc(DefMenu[FDefs[i]].v, SchemaOf(FTypes[i]), EmptyFun)]
 
-M == INSTANCE SerdeRecord WITH N <- NF, ValB <- VB, DefB <- DB, MaxCalls <- 4
+M == INSTANCE SerdeRecord WITH N <- NF, ValB <- VB, DefB <- DB, MaxCalls <- NF + 1
 
-Init == M!Init
+(* five fields: no field or every field has a default (the 3-field instance explores every subset) *)
+Init == M!Init /\ (NF > 3 => hasdef \in {[i \in 1..NF |-> FALSE], [i \in 1..NF |-> TRUE]})
 Next == M!Next
 TypeOK == M!TypeOK
 CountIsBytes == M!CountIsBytes
